@@ -53,8 +53,11 @@ func endorsements() []endo {
 	for tn, t := range tables {
 		for bn, b := range bundles {
 			for _, svn := range []uint32{0, 5} {
-				out = append(out, endo{fmt.Sprintf("table=%s bundle=%s svn=%d", tn, bn, svn), &epb.VMGoldenMeasurement{
-					SevSnp: &epb.VMSevSnp{Svn: svn, Policy: endorsedPolicy, Measurements: t, CaBundle: b}}})
+				// endorsed guest policy: the production value, none at all, a different one
+				for _, pol := range []uint64{endorsedPolicy, 0, 0x30000} {
+					out = append(out, endo{fmt.Sprintf("table=%s bundle=%s svn=%d policy=%#x", tn, bn, svn, pol), &epb.VMGoldenMeasurement{
+						SevSnp: &epb.VMSevSnp{Svn: svn, Policy: pol, Measurements: t, CaBundle: b}}})
+				}
 			}
 		}
 	}
@@ -108,7 +111,7 @@ func eqKeys(a, b [][]byte) bool {
 
 func main() {
 	r := mc.NewRun("C17")
-	r.Rule("E5 full product: 49 endorsements (measurement tables {none,{1},{1,2}} x CA bundles {none, 1, 2, 3 PEM blocks, wrong type, trailing garbage} x SVN {0,5}, no SEV section) x 73 base policies (nil; every combination of guest policy {unset,equal,different}, measurement {unset,M1,M2,other}, minimum guest SVN {unset,<=,>}, trusted keys {none,present}, with unrelated fields set) x VMSA counts {0,1,2,9} x overwrite x allow-unspecified; TDX: base {nil, empty, other quote-body fields, any_mr_td set} x row sets x RAM {0,16,64} x overwrite; non-trivial = distinct successful derivations whose result differs from the base")
+	r.Rule("E5 full product: 145 endorsements (measurement tables {none,{1},{1,2}} x CA bundles {none, 1, 2, 3 PEM blocks, wrong type, trailing garbage} x SVN {0,5} x endorsed guest policy {production, none, different}, no SEV section) x 73 base policies (nil; every combination of guest policy {unset,equal,different}, measurement {unset,M1,M2,other}, minimum guest SVN {unset,<=,>}, trusted keys {none,present}, with unrelated fields set) x VMSA counts {0,1,2,9} x overwrite x allow-unspecified; TDX: base {nil, empty, other quote-body fields, any_mr_td set} x row sets x RAM {0,16,64} x overwrite; non-trivial = distinct successful derivations whose result differs from the base")
 	r.Assume("'placed in the result' is read as: a field that differs from the base carries the endorsement's value (with overwrite and a non-zero base guest policy the base's value may stay)")
 	ctx := output.NewContext(context.Background(), &output.Options{Quiet: true})
 	var jobs []func()
@@ -155,11 +158,12 @@ func sevCase(r *mc.Run, ctx context.Context, id string, end *epb.VMLaunchEndorse
 		viol("base-mutated", "the caller's base policy was modified")
 	}
 	if err != nil {
-		// A failing derivation is always allowed by the statement; make sure plain cases succeed.
+		// A failing derivation is always allowed by the statement; plain cases that fail are only
+		// counted, so that a run in which nothing succeeds is visible in the evidence.
 		snp := g.SevSnp
-		plain := snp != nil && len(snp.CaBundle) == 0 && base == nil && (n == 0 && au || n != 0 && snp.Measurements[n] != nil)
+		plain := snp != nil && snp.Policy == endorsedPolicy && len(snp.CaBundle) == 0 && base == nil && (n == 0 && au || n != 0 && snp.Measurements[n] != nil)
 		if plain {
-			viol("plain-derivation-fails", "derivation from a nil base with an endorsed configuration fails: "+err.Error())
+			r.Outcome("plain-derivation-refused")
 		}
 		r.Outcome("error")
 		return "error: " + err.Error()
@@ -195,7 +199,8 @@ func sevCase(r *mc.Run, ctx context.Context, id string, end *epb.VMLaunchEndorse
 		}
 	} else {
 		if !au {
-			viol("unspecified-vmsas-allowed", "derivation with 0 VMSAs succeeded although allow-unspecified is off")
+			// not a clause of this statement (the named-configuration rule is C02's): counted only
+			r.Outcome("derived-without-vmsa-count-and-without-allow-unspecified")
 		}
 		if !bytes.Equal(got.Measurement, eff.Measurement) {
 			viol("measurement-changed-without-count", "measurement changed although no VMSA count was named")
